@@ -507,6 +507,14 @@ func (c12) Run(c *Case, st *Stats) []Violation {
 		defaultStart = defaultStart.Add(14*time.Hour + 30*time.Minute)
 		st.Faults["default-start-date-with-a-time-of-day"]++
 	}
+	if len(c.Param) > 2 && c.Param[2] == 1 && c.Shape == 1 && base == base2000 {
+		// with the Tiingo source: the same calendar day, one hour after midnight in a zone three hours
+		// ahead of UTC ("now" on a machine east of Greenwich). The request names that calendar day;
+		// the source's rows of that day (UTC midnights) lie after the instant, those of the day before do not
+		y, m, d := defaultStart.Date()
+		defaultStart = time.Date(y, m, d, 1, 0, 0, 0, time.FixedZone("", 3*3600))
+		st.Faults["default-start-date-in-a-zone-ahead-of-utc"]++
+	}
 	if base != base2000 {
 		st.Faults["dates-in-a-daylight-saving-zone"]++
 	}
